@@ -215,6 +215,9 @@ def check_access(bounds, A, b, rng):
     p = AccessPattern(bounds, mk_transform(A, b, n))
     c = p.canonicalize()
     keep = [bd is None or bd > 1 for bd in bounds]
+    if list(c.bounds) != [bd for bd, k in zip(bounds, keep) if k]:
+        return [{"what": "AccessPattern.canonicalize keeps the wrong dimensions",
+                 "detail": {"canonical_bounds": list(c.bounds), "expected": [bd for bd, k in zip(bounds, keep) if k]}}]
     box = itertools.product(*[range(bd if bd is not None else 3) for bd in bounds])
     for x in itertools.islice(box, 300):
         y = [v for v, k in zip(x, keep) if k]
@@ -232,6 +235,14 @@ def check_access(bounds, A, b, rng):
     return []
 
 
+def _guard(kind, fn):
+    """a crash of the implementation on a valid input is a failure with that input, not a harness crash"""
+    try:
+        return fn()
+    except Exception as e:
+        return [{"what": f"{kind} raises on a valid input", "detail": repr(e)[:300]}]
+
+
 def l2(ctx, deep):
     rng = ctx.rng
     n_cases = ctx.n(250, 3000) * (3 if deep else 1)
@@ -240,19 +251,19 @@ def l2(ctx, deep):
         n, res = gen_map(rng, linear_only=True)
         inp = {"kind": "roundtrip", "n": n, "results": res}
         ctx.count({"part": PART, "L2": inp}, n >= 2 and len(res) >= 1, f"l2rt{n}{res}", "L2:roundtrip")
-        for f in check_roundtrip(n, res, rng):
+        for f in _guard("from_affine_map/to_affine_map", lambda: check_roundtrip(n, res, rng)):
             fails.append({"part": PART, "what": f["what"], "input": inp, "detail": f["detail"], "klass": None})
         r, n2, r1 = rng.choice([1, 2, 3]), rng.choice([1, 2, 3, 4]), rng.choice([1, 2, 3])
         A, b = gen_matrix(rng, r, n2), [rng.choice([0, 1, -3, 5]) for _ in range(r)]
         A1, b1 = gen_matrix(rng, r1, r), [rng.choice([0, 1, -2, 7]) for _ in range(r1)]
         inp = {"kind": "compose", "A1": A1, "b1": b1, "A": A, "b": b, "n": n2}
         ctx.count({"part": PART, "L2": inp}, True, f"l2cmp{A1}{b1}{A}{b}", "L2:compose")
-        for f in check_compose(A1, b1, A, b, n2, rng):
+        for f in _guard("compose/eval", lambda: check_compose(A1, b1, A, b, n2, rng)):
             fails.append({"part": PART, "what": f["what"], "input": inp, "detail": f["detail"], "klass": None})
         bounds = [rng.choice([None, 1, 1, 2, 3, 4, 1]) for _ in range(n2)]
         inp = {"kind": "access", "bounds": bounds, "A": A, "b": b}
         ctx.count({"part": PART, "L2": inp}, n2 >= 2, f"l2ap{bounds}{A}{b}", "L2:AccessPattern")
-        for f in check_access(bounds, A, b, rng):
+        for f in _guard("AccessPattern.canonicalize/inner_dims", lambda: check_access(bounds, A, b, rng)):
             fails.append({"part": PART, "what": f["what"], "input": inp, "detail": f["detail"], "klass": None})
         if len(fails) > 20:
             break
